@@ -117,6 +117,15 @@ def simultaneous(v, path=None):
                     return False, 'entries of delta are altered while being merged'
                 if (('cmp', 'in', K, ('attr', SELF, 'inst')), False) not in conds:
                     return False, 'entries of delta are merged without excluding the keys the notation already binds (k not in self.inst)'
+                # the only other filter that loses nothing: "k occurs in the body" (an entry for a metavariable that does not occur is
+                # immaterial).  Any further condition drops an entry that IS needed.
+                for c, pol in conds:
+                    if c == ('cmp', 'in', K, ('attr', SELF, 'inst')) and pol is False:
+                        continue
+                    occurs = c[0] == 'cmp' and c[1] == 'in' and c[2] == K and 'metavars' in repr(c[3]) and pol is True
+                    if not occurs:
+                        return False, (f'entries of delta are merged only under `{show(c)}` = {pol}: an entry for a metavariable that occurs in '
+                                       f'the body and is not bound by the notation is dropped')
                 have_delta = True
         else:
             return False, f'map component ranges over {show(part.source)}'
